@@ -86,6 +86,12 @@ def gen_scalar_case(g: VGen, opts: dict) -> dict:
     return {"env": g.env, "v": v, "x": x, "stream": stream, "classes": g.classes}
 
 
+def gen_c18_case(g: VGen, opts: dict) -> dict:
+    c = gen_core_case(g, dict(opts, depths=[0, 0, 1, 1, 2]))
+    c["c18"] = g.rng.randrange(1000)
+    return c
+
+
 def gen_coercion_case(g: VGen, opts: dict) -> dict:
     """C16: Decimal / UUID / date / datetime / tuple validators with their default coercers"""
     from .gen import PARSE_TEXT, S
